@@ -27,7 +27,7 @@ func (C16) Rule() string {
 		"commits and new versions move the branch head; clean and kill restarts. Oracles: (i) relational - at pair points the head is committed and a child is created, so the SAME data is read through the store path (committed parent) and the " +
 		"in-memory path (new head): key (show=all), keys, all, fields, fields?counts, keyrange, keyrangevalues, keyvalues, query in every form (equality, list, regex, exists/0|1, conjunction, disjunction), schema must agree " +
 		"(lists whose order the API leaves open are compared as sets), and again after a restart; (ii) model of the statement's merge rules after every POST/DELETE on the head: unmentioned fields and their stamps kept, null removes the value, " +
-		"a field's _user/_time change iff its value changes (to the poster and the simulator's fake now). non-trivial = at least one null-deletion or replace and one pair comparison; distinct = distinct (steps, schedule, faults) hash"
+		"a field's _user/_time change iff its value changes (to the poster and the simulator's fake now). Concurrent batches: 2-3 clients update or delete ONE annotation at the same time (the result must be what some sequential order of the acknowledged requests gives - reported as C11 - and the two read paths are compared right after), and a range read of the head runs while other clients delete its largest ids; every third run makes DVID's own mutex acquisitions scheduling points too. non-trivial = at least one null-deletion or replace and one pair comparison; distinct = distinct (steps, schedule, faults) hash"
 }
 func (C16) Assumptions() []string { return commonAssumptions }
 func (C16) Budget(tier string) (int, time.Duration) {
@@ -82,6 +82,9 @@ func (C16) Generate(r *rand.Rand, tier string, idx int) *drv.Scenario {
 			steps = append(steps, op)
 		case x < 56:
 			steps = append(steps, drv.Op{Op: "njdel", N: int64(pick(r, njIDs))})
+		case x < 58 && r.IntN(3) == 0:
+			// a range read of the head while other clients delete its largest ids
+			steps = append(steps, drv.Op{Op: "njparrange", N: int64(1 + r.IntN(2))}, drv.Op{Op: "njpair"})
 		case x < 58:
 			// 2-3 clients update ONE annotation at the same time; then the two read paths are compared at once
 			id := pick(r, njIDs)
@@ -198,6 +201,9 @@ func (c C16) Execute(sc *drv.Scenario, w *drv.World) (*drv.Violation, error) {
 		case "njpar":
 			e.dirty = true
 			v, err = c.par(e, op)
+		case "njparrange":
+			e.dirty = true
+			v, err = c.parRange(e, op)
 		case "njpair":
 			v, err = c.pair(e)
 		case "njrestart":
@@ -462,6 +468,44 @@ func (c C16) par(e *njExec, op drv.Op) (*drv.Violation, error) {
 	}
 	return &drv.Violation{Prop: "C11", Oracle: "nj-concurrent-updates", Sig: "concurrent neuron-annotation updates: the result is no sequential order of the acknowledged requests",
 		Detail: "batch:\n" + descReqs(reqs) + "\nstate before: " + canon(saved) + "\nfirst candidate order fails with: " + first.Sig + "\n" + first.Detail + "\nall orders of the acknowledged requests:\n" + tried.String()}, nil
+}
+
+// parRange: a range read served from the in-memory head while other clients delete the largest ids.
+func (c C16) parRange(e *njExec, op drv.Op) (*drv.Violation, error) {
+	var ids []int
+	for id := range e.model {
+		ids = append(ids, id)
+	}
+	sort.Ints(ids)
+	if len(ids) < 2 {
+		return nil, nil
+	}
+	nd := int(op.N)
+	if nd > len(ids)-1 {
+		nd = len(ids) - 1
+	}
+	victims := ids[len(ids)-nd:]
+	reqs := []proto.Req{{Client: "c1", Kind: "http", Method: "GET", URL: e.base(e.head) + "/keyrangevalues/0/99999999?json=true"}}
+	for j, id := range victims {
+		reqs = append(reqs, proto.Req{Client: fmt.Sprintf("c%d", j+2), Kind: "http", Method: "DELETE", URL: fmt.Sprintf("%s/key/%d", e.base(e.head), id)})
+	}
+	res, err := e.w.Batch(reqs, "barrier")
+	if err != nil {
+		return nil, err
+	}
+	if res.Wedged {
+		return nil, e.w.ClassifyWedge("range read concurrent with deletes\n"+descReqs(reqs), res.Stacks)
+	}
+	e.w.Stats.Probe("nj-range-vs-delete-batch")
+	for j, id := range victims {
+		if res.Resps[j+1].Status == 200 {
+			delete(e.model, id)
+		}
+		if v, err := c.checkID(e, id, "after a delete concurrent with a range read"); v != nil || err != nil {
+			return v, err
+		}
+	}
+	return nil, nil
 }
 
 // checkID compares GET key/<id>?show=all on the head with the merge-rule model.
